@@ -67,6 +67,7 @@ def check_text(out: Outcome, text: str, sub, assemble=True):
         return True
     if st_ == "exception" or (st_ == "ok" and getattr(val, "error", None)):
         nt = True
+        assemble = False  # the assembly would repeat exactly this scan / parse and stop at the same error
     if assemble:
         bound = expansion_bound(text)
         if bound > 5000:
